@@ -15,6 +15,7 @@
 (*   Call(r, g)       a parameter-update routine on a batch of kind g         *)
 (*   TargetUpdate(t)  hard_/soft_target_net_update on the stated pairs        *)
 (*   TrainStepTD7     td7._train_step, the composition the TD7 loop executes  *)
+(*   SelectTask(c, k) MTMLPQNetwork.select_task: renormalises the task embedding *)
 (*   Evaluate(f)      a loss / gradient function is merely evaluated          *)
 (*   Act(f)           an acting function (sampling, greedy action, forward)   *)
 (*                                                                            *)
@@ -25,20 +26,21 @@
 (* trained network, and nothing outside trains(r) + their optimisers changes. *)
 EXTENDS Integers, Sequences, FiniteSets, TLC, Json
 
-CONSTANTS Family,    \* "DQN" | "DDPG" | "TD3" | "SAC" | "TD7" | "MRQ" | "PPO" | "PG" | "PETS"
+CONSTANTS Family,    \* "DQN" | "DQNMT" | "DDPG" | "TD3" | "SAC" | "TD7" | "MRQ" | "PPO" | "PG" | "PETS"
           MaxCalls,  \* bound on the number of state-changing calls in a behaviour
           EMIT       \* TRUE: print one EMIT record per transition
 
 VARIABLES ver,    \* [Component -> Nat]  content id held by every component
           nxt,    \* number of content ids issued so far (ghost)
           calls,  \* number of update / target calls so far (ghost, bounds the search)
-          last    \* label of the last action (ghost; the action properties speak about it)
+          last,   \* label of the last action (ghost; the action properties speak about it)
+          rn      \* DQNMT only (else <<>>): rn[i] = id of the renormalised version of content i, -1 = not yet observed
 
-vars == <<ver, nxt, calls, last>>
-GenView == <<ver, nxt, calls>>
-View == [ver |-> ver, nxt |-> nxt, calls |-> calls]
+vars == <<ver, nxt, calls, last, rn>>
+GenView == <<ver, nxt, calls, rn>>
+View == [ver |-> ver, nxt |-> nxt, calls |-> calls, rn |-> rn]
 
-Families == {"DQN", "DDPG", "TD3", "SAC", "TD7", "MRQ", "PPO", "PG", "PETS"}
+Families == {"DQN", "DQNMT", "DDPG", "TD3", "SAC", "TD7", "MRQ", "PPO", "PG", "PETS"}
 ASSUME Family \in Families /\ MaxCalls \in Nat
 
 ----------------------------------------------------------------------------
@@ -53,7 +55,7 @@ ActorCritic == <<P("policy", "actor"), O("policy_opt", "policy", "actor"), T("po
                  P("q", "critic"), O("q_opt", "q", "critic"), T("q_target", "q", "target")>>
 
 CompTable ==
-  CASE Family = "DQN" -> <<P("q", "critic"), O("q_opt", "q", "critic"), T("q_target", "q", "target")>>
+  CASE Family \in {"DQN", "DQNMT"} -> <<P("q", "critic"), O("q_opt", "q", "critic"), T("q_target", "q", "target")>>
     [] Family = "DDPG" -> ActorCritic
     [] Family = "TD3" -> ActorCritic
     [] Family = "SAC" -> <<P("policy", "actor"), O("policy_opt", "policy", "actor"),
@@ -96,7 +98,7 @@ Soft(a, b) == [name |-> "soft_target_net_update(" \o a \o ", " \o b \o ")", pair
 Hard(a, b) == [name |-> "hard_target_net_update(" \o a \o ", " \o b \o ")", pairs |-> <<<<a, b>>>>, soft |-> FALSE]
 
 Routines ==
-  CASE Family = "DQN" -> {R("train_step_with_loss(dqn_loss)", {"q"}, {"critic"}, FALSE),
+  CASE Family \in {"DQN", "DQNMT"} -> {R("train_step_with_loss(dqn_loss)", {"q"}, {"critic"}, FALSE),
                           R("train_step_with_loss(nature_dqn_loss)", {"q"}, {"critic"}, FALSE),
                           R("train_step_with_loss(ddqn_loss)", {"q"}, {"critic"}, FALSE),
                           R("train_step_with_loss(ddqn_per_loss)", {"q"}, {"critic"}, TRUE)}
@@ -126,7 +128,7 @@ RoutineNamed(n) == CHOOSE r \in Routines : r.name = n
 
 (* target actions (their law is C06; here: which components they may touch)   *)
 Targets ==
-  CASE Family = "DQN" -> {Hard("q", "q_target")}
+  CASE Family \in {"DQN", "DQNMT"} -> {Hard("q", "q_target")}
     [] Family \in {"DDPG", "TD3"} -> {Soft("policy", "policy_target"), Soft("q", "q_target")}
     [] Family = "SAC" -> {Soft("q", "q_target")}
     [] Family = "TD7" -> {Hard("actor", "actor_target"), Hard("critic", "critic_target"),
@@ -139,7 +141,7 @@ Targets ==
     [] OTHER -> {}
 
 Evals ==
-  CASE Family = "DQN" -> {"dqn_loss", "nature_dqn_loss", "ddqn_loss", "ddqn_per_loss", "mse_discrete_action_value_loss"}
+  CASE Family \in {"DQN", "DQNMT"} -> {"dqn_loss", "nature_dqn_loss", "ddqn_loss", "ddqn_per_loss", "mse_discrete_action_value_loss"}
     [] Family = "DDPG" -> {"ddpg_loss", "deterministic_policy_gradient_loss", "mse_continuous_action_value_loss"}
     [] Family = "TD3" -> {"td3_loss", "td3_lap_loss", "deterministic_policy_gradient_loss"}
     [] Family = "SAC" -> {"sac_loss", "sac_actor_loss", "sac_exploration_loss", "EntropyControl.update(autotune=False)"}
@@ -151,7 +153,7 @@ Evals ==
     [] Family = "PETS" -> {"gaussian_ensemble_loss"}
 
 Acts ==
-  CASE Family = "DQN" -> {"greedy_policy"}
+  CASE Family \in {"DQN", "DQNMT"} -> {"greedy_policy"}
     [] Family = "DDPG" -> {"sample_actions(policy)", "policy_target"}
     [] Family = "TD3" -> {"sample_actions(policy)", "sample_target_actions(policy_target)"}
     [] Family = "SAC" -> {"policy.sample", "policy.log_probability", "alpha()"}
@@ -205,9 +207,13 @@ Label(op, g, trains, kinds, allowed) == [op |-> op, g |-> g, trains |-> trains, 
 Emit(op, args) ==
   EMIT => PrintT(<<"EMIT", ToJson([pre |-> View, op |-> op, args |-> args, exp |-> <<>>, post |-> View'])>>)
 
+(* the renormalisation record grows with the ids (DQNMT), new ids: not observed *)
+RnExt(f, n0, n1) == IF Family = "DQNMT" THEN [i \in 0..(n1 - 1) |-> IF i < n0 THEN f[i] ELSE -1] ELSE <<>>
+
 Commit(s, lab, op, args) ==
   LET c == Canon(St, s) IN
   /\ ver' = c.ver /\ nxt' = c.nxt /\ calls' = calls + 1 /\ last' = lab
+  /\ rn' = RnExt(rn, nxt, c.nxt)
   /\ Emit(op, args)
 
 ----------------------------------------------------------------------------
@@ -216,6 +222,7 @@ Init == /\ ver = Canon([ver |-> [c \in CompSet |-> 0], nxt |-> 0],
         /\ nxt = Cardinality({Source(c) : c \in CompSet})
         /\ calls = 0
         /\ last = Label("Init", "none", {}, {}, {})
+        /\ rn = RnExt(<<>>, 0, Cardinality({Source(c) : c \in CompSet}))
 
 (* a parameter-update routine *)
 Call(r, g) ==
@@ -269,17 +276,37 @@ TrainStepTD7(policyDue, targetDue) ==
   /\ Composite("td7._train_step", TD7Steps(policyDue, targetDue),
                [g |-> "generic", policy_due |-> policyDue, target_due |-> targetDue])
 
+(* DQNMT: the Q-networks are MTMLPQNetwork (task-embedding table + MLP).       *)
+(* select_task(k) sets the task and RENORMALISES the embedding table in place  *)
+(* (rows above max_task_embedding_norm are scaled down): the one documented    *)
+(* place where a network's parameters change outside an optimiser step.  The   *)
+(* result is a FUNCTION of the content (recorded in rn once observed): either  *)
+(* the content itself (no row too long) or another content; in floating point  *)
+(* the function need not be idempotent.  Nothing but the network changes.      *)
+SelectTask(c, k) ==
+  /\ Family = "DQNMT"
+  /\ calls < MaxCalls
+  /\ LET a == ver[c] IN
+     \E s \in (IF rn[a] # -1 THEN {[St EXCEPT !.ver[c] = rn[a]]} ELSE {St, Bump(St, {c})}) :
+       LET cn == Canon(St, s) IN
+       /\ ver' = cn.ver /\ nxt' = cn.nxt /\ calls' = calls + 1
+       /\ last' = Label("select_task", "none", {}, {Role(c)}, {c})
+       /\ rn' = [i \in 0..(cn.nxt - 1) |-> IF i = a THEN cn.ver[c] ELSE IF i < nxt THEN rn[i] ELSE -1]
+       /\ Emit("select_task", [c |-> c, task |-> k])
+
 (* evaluating a loss / computing a gradient, and acting, change nothing *)
-Evaluate(f) == /\ UNCHANGED <<ver, nxt, calls>>
+Evaluate(f) == /\ UNCHANGED <<ver, nxt, calls, rn>>
                /\ last' = Label("Evaluate", "none", {}, {}, {})
                /\ Emit("Evaluate", [fn |-> f])
-Act(f) == /\ UNCHANGED <<ver, nxt, calls>>
+Act(f) == /\ UNCHANGED <<ver, nxt, calls, rn>>
           /\ last' = Label("Act", "none", {}, {}, {})
           /\ Emit("Act", [fn |-> f])
 
 Next == \/ \E r \in Routines : \E g \in {"generic", "zero"} : Call(r, g)
         \/ \E t \in Targets : TargetUpdate(t)
         \/ \E pd \in BOOLEAN, td \in BOOLEAN : TrainStepTD7(pd, td)
+        \/ \E k \in {0, 1} : SelectTask("q", k)
+        \/ SelectTask("q_target", 0)
         \/ \E f \in Evals : Evaluate(f)
         \/ \E f \in Acts : Act(f)
 
@@ -295,6 +322,7 @@ ASSUME EMIT => PrintT(<<"EMIT", ToJson([op |-> "Meta", family |-> Family, comps 
 (* Properties (C05) *)
 TypeOK == /\ ver \in [CompSet -> 0..(nxt - 1)]
           /\ calls \in 0..MaxCalls
+          /\ Family = "DQNMT" => rn \in [0..(nxt - 1) -> -1..(nxt - 1)]
           /\ \A c \in CompSet : \A d \in CompSet : ver[c] = ver[d] => Source(c) = Source(d)
 
 Changed(c) == ver'[c] # ver[c]
@@ -342,7 +370,7 @@ WrongOptimizer ==
 (* evaluating a loss mutates a network *)
 EvaluateMutates ==
   \E f \in Evals : \E p \in Params :
-    /\ ver' = Canon(St, Bump(St, {p})).ver /\ nxt' = nxt + 1 /\ calls' = calls
+    /\ ver' = Canon(St, Bump(St, {p})).ver /\ nxt' = nxt + 1 /\ calls' = calls /\ rn' = RnExt(rn, nxt, nxt + 1)
     /\ last' = Label("Evaluate", "none", {}, {}, {})
 (* an update on a generic batch that does not learn *)
 UpdateDoesNotLearn ==
